@@ -64,7 +64,7 @@ struct Runner
 	std::vector<Failure> failures;
 	std::vector<std::string> samples;
 
-	Runner() : fn(0), batch(400), timeoutMs(20000), single(false), executed(0), nontrivial(0) {}
+	Runner() : fn(0), batch(3000), timeoutMs(20000), single(false), executed(0), nontrivial(0) {}
 
 	static void onAlarm(int)
 	{
@@ -328,7 +328,7 @@ struct Runner
 		free(ln);
 		fclose(f);
 		size_t i = 0;
-		while (i < lines.size() && failures.size() < 25)
+		while (i < lines.size() && failures.size() < 4)
 			i = runBatch(i, i + (size_t)(single ? 1 : batch) < lines.size() ? i + (size_t)(single ? 1 : batch) : lines.size(), single);
 		if (single)
 		{
